@@ -142,6 +142,7 @@ def _euf(case, cap):
         linalg = _LA()
         def cross(self, a, b): return SVec(cross(a.e, b.e))
         def any(self, v): return SBool(v.e != zero)
+        def all(self, v): raise Abort('np.all on a vector: componentwise test, outside the vector-level fragment')
         def __getattr__(self, n): return getattr(np, n)
     saved = aux.np
     aux.np = NPV()
@@ -152,7 +153,12 @@ def _euf(case, cap):
         q = [SVec(vadd(rot(a.e), t_)) for a in p]
         # generic branch for P
         state.update(pc=[], dec=[True, True], pos=0)
-        (v1, v2, v3), o = aux.calcule_base(p)
+        try:
+            (v1, v2, v3), o = aux.calcule_base(p)
+        except Abort as e:
+            records.append({'name': 'generic branch of calcule_base leaves the vector-level fragment (%s): rotation equivariance not decidable at vector level' % e,
+                            'status': 'unknown', 'secs': 0})
+            return {'records': records, 'paths': 1, 'queries': 0, 'solver_s': 0, 'samples': [], 'nontrivial': []}
         pc1 = list(state['pc'])
         (w1, w2, w3), o2 = aux.calcule_base(q)
         pc_all = list(state['pc'])
@@ -274,7 +280,15 @@ def _call(case, cap):
         stub_state['moved'] = True
         mark = len(stub_state['calls'])
         out2 = m(mov).atoms_positions
-        return out, out2, ncalls_construct, len(stub_state['calls']) - mark, Rm, Tm
+        nc2 = len(stub_state['calls']) - mark
+        # the same molecule object moved in place by the caller (rotate / move), then mapped again
+        stub_state['moved'] = False
+        same = mk(refc)
+        m(same)
+        same.atoms_positions = np.array(movc, dtype=object)
+        stub_state['moved'] = True
+        out3 = m(same).atoms_positions
+        return out, out2, ncalls_construct, nc2, Rm, Tm, out3
 
     for ctx, res, exc in explore(run, max_paths=500):
         st['paths'] += 1
@@ -283,7 +297,7 @@ def _call(case, cap):
             records.append({'name': 'path%d: aborted %r' % (pidx, exc), 'status': 'error', 'secs': 0, 'detail': repr(exc)})
             continue
         nontrivial.append('path%d' % pidx)
-        out, out2, nc, nc2, Rm, Tm = res
+        out, out2, nc, nc2, Rm, Tm, out3 = res
         if pidx == 1:
             records.append(core_twin(ctx, cap))
         nanch = sum(1 for i in range(n) if sum(1 for e in edges if i in e) >= 2)
@@ -295,6 +309,12 @@ def _call(case, cap):
             claim = z3.And(*[expr(out2[k][c]) == expr(exp[c]) for c in range(3)])
             r, secs, mo = ctx.prove(claim, 60000)
             rec = {'name': 'path%d tgt%d: map(R ref + t) = R map(ref) + t' % (pidx, k), 'status': r, 'secs': secs}
+            if r == 'sat':
+                rec['witness'] = {'kind': 'call', 'n': n, 'edges': edges, 'nt': nt, 'inputs': concretize_inputs(ctx, [z3.Not(claim)], inputs, mo)}
+            records.append(rec)
+            claim = z3.And(*[expr(out3[k][c]) == expr(exp[c]) for c in range(3)])
+            r, secs, mo = ctx.prove(claim, 60000)
+            rec = {'name': 'path%d tgt%d: same molecule object moved in place then mapped again: R map(ref) + t' % (pidx, k), 'status': r, 'secs': secs}
             if r == 'sat':
                 rec['witness'] = {'kind': 'call', 'n': n, 'edges': edges, 'nt': nt, 'inputs': concretize_inputs(ctx, [z3.Not(claim)], inputs, mo)}
             records.append(rec)
@@ -456,6 +476,13 @@ def replay(w):
             out2 = m(mk(Rr @ Rot.T + t)).atoms_positions
             if np.abs(out2 - (out @ Rot.T + t)).max() > 1e-8:
                 bad.append('map(R ref + t) != R map(ref) + t (max deviation %.3g nm)' % np.abs(out2 - (out @ Rot.T + t)).max())
+                break
+            same = mk(Rr)
+            m(same)
+            same.atoms_positions = Rr @ Rot.T + t          # the caller moves the same object in place
+            out3 = m(same).atoms_positions
+            if np.abs(out3 - (out @ Rot.T + t)).max() > 1e-8:
+                bad.append('molecule moved in place and mapped again: result is not R map(ref) + t (max deviation %.3g nm)' % np.abs(out3 - (out @ Rot.T + t)).max())
                 break
         return {'reproduced': bool(bad), 'what': 'ExchangeMap rigid-motion equivariance (%d-atom reference): %s' % (n, '; '.join(bad)),
                 'detail': {'ref': Rr.tolist(), 'edges': edges}}
